@@ -4,6 +4,8 @@ import Driver.Common
 import AskarModel.Model.Store
 import AskarModel.Model.Like
 import AskarModel.Model.Ffi
+import AskarModel.Model.FfiEntry
+import AskarModel.Model.Copy
 
 open Lean Askar Askar.Wql Askar.Store Askar.Ffi
 
@@ -141,6 +143,10 @@ structure World where
   slots : Array Slot := #[]
   prov : List (Nat × Nat) := []         -- op index of a provision ↦ backend
   lastErr : Option Nat := some 0        -- LAST_ERROR as `askar_get_current_error` would report it (none = not determined)
+  tw : Array Json := #[]                -- per op: the verdict of the Rust API on the same arguments (model_input)
+  ops : Array Json := #[]               -- the ops of the case (a decrypting op refers to the op that encrypted)
+  files : List (Nat × Nat) := []        -- op index that named a database file ↦ file id
+  fstate : List (Nat × Option Nat) := [] -- file id ↦ backend holding its content (none = removed)
 
 /-- a store / session / scan handle argument -/
 def handleArg (w : World) (counter : Nat) (j : Json) : Nat :=
@@ -274,6 +280,321 @@ def openKey (m : String) (p0 p : Option String) : Except Err Unit :=
   else match p with
     | none => .error .input
     | some k => if some k == p0 then .ok () else .error .encryption
+
+/-! ### Entry points added for the coverage gaps (key operations, store removal / copy / migration, Busy, loggers) -/
+
+def errOfName (n : String) : Err :=
+  match n with
+  | "Backend" => .backend | "Busy" => .busy | "Duplicate" => .duplicate | "Encryption" => .encryption | "Input" => .input
+  | "NotFound" => .notFound | "Unexpected" => .unexpected | "Unsupported" => .unsupported | "Custom" => .custom | _ => .unexpected
+
+/-- the Rust API's verdict on the arguments of op `i`, as observed by the harness: "ok" or an ErrorKind name -/
+def twVerdict (w : World) (i : Nat) : Except Err Unit :=
+  match w.tw[i]? with
+  | some (.str "ok") => .ok ()
+  | some (.str n) => .error (errOfName n)
+  | _ => .error .unexpected
+
+/-- effective length of a `ByteBuffer` argument: hex text, {"nulldata": n} (read as empty), {"neglen": …} -/
+def bufBytes (b : Json) : Bytes :=
+  match b with
+  | .str s => (Bytes.ofHex s).getD []
+  | _ => []
+
+def bufNeg (b : Json) : Bool := (getD? b "neglen").isSome
+
+def keySlotAlg (w : World) (k : Json) : Option String :=
+  match k.getNat? with
+  | .ok s => match w.slots[s]? with | some (.key a) => some a | _ => none
+  | .error _ => none
+
+def syncArgs (w : World) (j : Json) : SyncArgs :=
+  { outNull := bool! j "null_out",
+    alg := algArg (cstr j "alg"),
+    handlesNull := (arr! j "keys").map fun k => (keySlotAlg w k).isNone,
+    msgLenNeg := decide (int! j "len" < 0),
+    bufNeg := (arr! j "bufs").any bufNeg }
+
+def keyEntryOf (op : String) : Option KeyEntry :=
+  match op with
+  | "key_from_jwk" => some .fromJwk | "key_from_public" => some .fromPublicBytes | "key_from_secret" => some .fromSecretBytes
+  | "key_convert" => some .convert | "key_exchange" => some .fromKeyExchange | "aead_params" => some .aeadGetParams
+  | "aead_padding" => some .aeadGetPadding | "aead_encrypt" => some .aeadEncrypt | "aead_decrypt" => some .aeadDecrypt
+  | "key_wrap" => some .wrapKey | "key_unwrap" => some .unwrapKey | "cbox" => some .cryptoBox | "cbox_open" => some .cryptoBoxOpen
+  | "cbox_seal" => some .cryptoBoxSeal | "cbox_seal_open" => some .cryptoBoxSealOpen | "ecdh_es" => some .deriveEcdhEs
+  | "ecdh_1pu" => some .deriveEcdh1pu | _ => none
+
+/-- plaintext of the op that produced the material a decrypting op refers to -/
+def sourceMsg (w : World) (j : Json) : Bytes :=
+  match w.ops[nat! j "from"]? with
+  | some src => bufBytes ((arr! src "bufs").headD .null)
+  | none => []
+
+def isNewOp (name : String) : Bool :=
+  (keyEntryOf name).isSome || ["key_free", "buffer_free_probe", "provision2", "store_remove", "store_copy", "dump", "migrate", "busy", "logger"].contains name
+
+def lookupFile (w : World) (ofOp : Nat) : Option (Option Nat) :=
+  match w.files.find? (·.1 == ofOp) with
+  | some (_, fid) => (w.fstate.find? (·.1 == fid)).map (·.2)
+  | none => (w.prov.find? (·.1 == ofOp)).map fun pb => some pb.2
+
+def fileIdOf (w : World) (ofOp : Nat) : Option Nat := (w.files.find? (·.1 == ofOp)).map (·.2)
+
+def setFile (w : World) (fid : Nat) (b : Option Nat) : World := { w with fstate := (fid, b) :: w.fstate.filter (·.1 != fid) }
+
+/-- how a URI argument is classified: NULL, a fresh file, the file of an earlier op, the in-memory store,
+    anything else (its fate is URI parsing, C08's model: the Rust API's verdict is taken as given) -/
+inductive UriClass | null | fresh | ofOp (k : Nat) | memory | other
+
+def uriClass (j : Json) (k : String) : UriClass :=
+  match j.getObjVal? k with
+  | .ok (.str s) => if s == "FILE" || s == "FILE?busy" then .fresh else if s == "sqlite://:memory:?max_connections=8" then .memory else .other
+  | .ok (.obj kv) => match (Json.obj kv).getObjVal? "of" with | .ok n => .ofOp (n.getNat?.toOption.getD 0) | .error _ => .other
+  | _ => .null
+
+def uriCStr (j : Json) (k : String) : CStr :=
+  match uriClass j k with
+  | .null => .null
+  | _ => .utf8 "uri"
+
+def toStoreSt (b : Backend) : Copy.StoreSt := { db := b.db, h := b.h, default := b.defProfile }
+
+def renderedTagKey (t : Tag) : String := if t.plain then "~" ++ t.name else t.name
+
+/-- tags of a dumped row: grouped by rendered name, names and values in byte order -/
+def jtagsDump (tags : List Tag) : Json :=
+  let keys := sortBy strLt ((tags.map renderedTagKey).eraseDups)
+  .arr (keys.map fun k => Json.arr #[.str k, .arr ((sortBy strLt ((tags.filter fun t => renderedTagKey t == k).map (·.value))).map Json.str).toArray]).toArray
+
+def jdumpEntry (e : Entry) : Json :=
+  Json.mkObj [("c", .str e.cat), ("n", .str e.name), ("v", jvalue e.value), ("t", jtagsDump e.tags)]
+
+def jdumpKey (e : Entry) : Json :=
+  Json.mkObj [("n", .str e.name), ("alg", .str (keyAlg e.value)), ("md", keyMeta e.value), ("t", jtagsDump e.tags)]
+
+def dumpBackend (b : Backend) : Json :=
+  let names := sortBy strLt (b.db.profiles.map (·.name))
+  let ps := names.map fun p =>
+    match resolve b.db b.h p with
+    | .error _ => Json.mkObj [("name", .str p)]
+    | .ok (s, _) =>
+      let items := (doFetchAll sqliteLike b.db 0 s (some 2) none none none false).toOption.getD []
+      let keys := (doFetchAll sqliteLike b.db 0 s (some 1) none none none false).toOption.getD []
+      Json.mkObj [("name", .str p), ("items", .arr ((sortBy entryLt items).map jdumpEntry).toArray),
+                  ("keys", .arr ((sortBy entryLt keys).map jdumpKey).toArray)]
+  Json.mkObj [("default", .str b.defProfile), ("profiles", .arr ps.toArray)]
+
+/-- resolution of the key of a NEW store (`StoreKeyMethod::resolve`), on the driver's method classes -/
+def newKey (m : String) (p : Option String) : Except Err Unit :=
+  resolveNewKey (fun k => validRawKeys.contains k) (classOf m) p
+
+def methodOf (j : Json) : Except Err String := methodArg (cstr j "method")
+
+def evalNew (w : World) (i : Nat) (j : Json) : World × Json :=
+  let op := str! j "op"
+  match keyEntryOf op with
+  | some ke =>
+    let a := syncArgs w j
+    let kalg (k : Nat) : String := ((arr! j "keys")[k]?.bind (keySlotAlg w)).getD ""
+    let bufLen (k : Nat) : Nat := (bufBytes ((arr! j "bufs")[k]?.getD .null)).length
+    -- the body: the Rust API's result; what the model can compute itself it does (AEAD parameters, padding, layouts)
+    let body : Except Err Json :=
+      match ke with
+      | .aeadGetParams => (aeadParams (kalg 0)).map fun p => Json.mkObj [("nonce", jnat p.1), ("tag", jnat p.2)]
+      | .aeadGetPadding => .ok (jnat (aeadPadding (kalg 0) (int! j "len").toNat))
+      | .aeadEncrypt => (twVerdict w i).map fun _ =>
+          let l := encryptedLayout (kalg 0) (bufLen 0) (bufLen 1)
+          Json.mkObj [("tag_pos", jnat l.1), ("nonce_pos", jnat l.2.1), ("len", jnat l.2.2)]
+      | .wrapKey => (twVerdict w i).map fun _ =>
+          let l := wrappedLayout (kalg 0) (kalg 1) (bufLen 0)
+          Json.mkObj [("tag_pos", jnat l.1), ("nonce_pos", jnat l.2.1), ("len", jnat l.2.2)]
+      | .aeadDecrypt | .cryptoBoxOpen | .cryptoBoxSealOpen => (twVerdict w i).map fun _ => jvalue (sourceMsg w j)
+      | .cryptoBox => (twVerdict w i).map fun _ => Json.mkObj [("len", jnat (bufLen 0 + 16))]
+      | .cryptoBoxSeal => (twVerdict w i).map fun _ => Json.mkObj [("len", jnat (bufLen 0 + 48))]
+      | _ => (twVerdict w i).map fun _ => Json.null
+    let (code, out, _) := ke.run a body 0
+    -- a new key handle: the slot of this op holds a key of the requested algorithm
+    let producesKey := [KeyEntry.fromJwk, .fromPublicBytes, .fromSecretBytes, .convert, .fromKeyExchange, .unwrapKey, .deriveEcdhEs, .deriveEcdh1pu].contains ke
+    let w := if code == .success && producesKey then
+        setSlot w i (.key (if ke == .fromJwk then str! j "jalg" else ((cstr j "alg").asOptStr).getD ""))
+      else w
+    (w, jsync code (if producesKey then .null else out.getD .null))
+  | none =>
+  match op with
+  | "key_free" =>
+    let w := match ((arr! j "keys").headD .null).getNat? with | .ok s => setSlot w s .none | .error _ => w
+    (w, jsync .success .null)
+  | "buffer_free_probe" => (w, jsync .success "ok")
+  | "provision2" =>
+    let mc := methodOf j
+    let dec := AsyncEntry.storeProvision.decode (fun m => (methodClass m).map fun _ => ()) [uriCStr j "uri"] (cstr j "method")
+    asyncEntry w j .required none dec fun w =>
+      match mc with
+      | .error e => (w, .error e)
+      | .ok m =>
+        let pass := (cstr j "pass").asOptStr
+        let fresh (w : World) (fid : Option Nat) : World × Except Err Json :=
+          match newKey m pass with
+          | .error e => (w, .error e)
+          | .ok _ =>
+            let profile := ((cstr j "profile").intoOptString).getD "default"
+            let b : Backend := { db := { profiles := [⟨1, profile, 0⟩] }, h := { cache := [(profile, 1, 0)], nextKey := 1 }, active := profile,
+                                 keyM := m, keyP := pass, defProfile := profile }
+            let bi := w.backends.size
+            let (h, stores) := w.stores.insert 0 bi
+            let w := { w with stores := stores, backends := w.backends.push b }
+            let w := match fid with | some f => setFile { w with files := (i, f) :: w.files } f (some bi) | none => w
+            (setSlot w i (.handle h), .ok (Json.mkObj [("h", jnat h)]))
+        match uriClass j "uri" with
+        | .fresh => fresh w (some i)
+        | .memory => fresh w none
+        | .ofOp k =>
+          match lookupFile w k, fileIdOf w k with
+          | some (some bi), fid =>
+            if bool! j "recreate" then fresh w fid else
+            match w.backends[bi]? with
+            | none => (w, .error .unexpected)
+            | some b =>
+              -- `open_db` of the existing store: method comparison, then the key
+              if m != b.keyM then (w, .error .input) else
+              match openKey b.keyM b.keyP pass with
+              | .error e => (w, .error e)
+              | .ok _ =>
+                let (h, stores) := w.stores.insert 0 bi
+                let w := { w with stores := stores, files := match fid with | some f => (i, f) :: w.files | none => w.files }
+                (setSlot w i (.handle h), .ok (Json.mkObj [("h", jnat h)]))
+          | _, fid => fresh w fid
+        | _ =>
+          match twVerdict w i with
+          | .error e => (w, .error e)
+          | .ok _ => fresh w none
+  | "store_remove" =>
+    let dec := AsyncEntry.storeRemove.decode (fun _ => .ok ()) [uriCStr j "uri"] .null
+    asyncEntry w j .required none dec fun w =>
+      match uriClass j "uri" with
+      | .memory => (w, .ok (Json.mkObj [("removed", .bool true)]))
+      | .ofOp k =>
+        match lookupFile w k, fileIdOf w k with
+        | some (some _), some fid => (setFile w fid none, .ok (Json.mkObj [("removed", .bool true)]))
+        | _, _ => (w, .ok (Json.mkObj [("removed", .bool false)]))
+      | _ =>
+        match w.tw[i]? with
+        | some (.str n) => (w, .error (errOfName n))
+        | some t => (w, .ok (Json.mkObj [("removed", .bool (bool! t "removed"))]))
+        | none => (w, .error .unexpected)
+  | "store_copy" =>
+    let h := handleArg w w.stores.counter j
+    let mc := methodOf j
+    let dec := AsyncEntry.storeCopy.decode (fun m => (methodClass m).map fun _ => ()) [uriCStr j "target"] (cstr j "method")
+    asyncEntry w j .required none dec fun w =>
+      match mc with
+      | .error e => (w, .error e)
+      | .ok m =>
+        match w.stores.borrow h with
+        | .error e => (w, .error e)
+        | .ok bi =>
+          match w.backends[bi]? with
+          | none => (w, .error .unexpected)
+          | some src =>
+            let pass := (cstr j "pass").asOptStr
+            let recreate := bool! j "recreate"
+            -- what is at the target, and whether the target's key lets the copy proceed
+            let (existing, fid, keyOk) : Option Backend × Option Nat × Except Err Unit :=
+              match uriClass j "target" with
+              | .ofOp k =>
+                match lookupFile w k, fileIdOf w k with
+                | some (some ti), fid =>
+                  match w.backends[ti]? with
+                  | some t =>
+                    if recreate then (some t, fid, newKey m pass)
+                    else (some t, fid, if m != t.keyM then .error .input else openKey t.keyM t.keyP pass)
+                  | none => (none, fid, newKey m pass)
+                | _, fid => (none, fid, newKey m pass)
+              | .fresh => (none, some i, newKey m pass)
+              | .memory => (none, none, newKey m pass)
+              | _ => (none, none, (twVerdict w i).bind fun _ => newKey m pass)
+            match keyOk with
+            | .error e => (w, .error e)
+            | .ok _ =>
+              let (_, dst, r) := Copy.copyStore page 0 none (1000 * (w.backends.size + 1)) (toStoreSt src) (existing.map toStoreSt) recreate
+              match dst with
+              | none => (w, match r with | .error e => .error e | .ok _ => .error .unexpected)
+              | some d =>
+                let nb : Backend := { db := d.db, h := d.h, active := src.defProfile, keyM := (if existing.isSome && !recreate then (existing.map (·.keyM)).getD m else m),
+                                      keyP := (if existing.isSome && !recreate then (existing.bind (·.keyP)) else pass), defProfile := d.default }
+                let nbi := w.backends.size
+                let w := { w with backends := w.backends.push nb }
+                let w := match fid with | some f => setFile { w with files := (i, f) :: w.files } f (some nbi) | none => w
+                match r with
+                | .error e => (w, .error e)
+                | .ok _ =>
+                  let (nh, stores) := w.stores.insert 0 nbi
+                  (setSlot { w with stores := stores } i (.handle nh), .ok (Json.mkObj [("h", jnat nh)]))
+  | "dump" =>
+    let h := handleArg w w.stores.counter j
+    match w.stores.borrow h with
+    | .error _ => (w, Json.mkObj [("dump", .null)])
+    | .ok bi =>
+      match w.backends[bi]? with
+      | none => (w, Json.mkObj [("dump", .null)])
+      | some b => (w, Json.mkObj [("dump", dumpBackend b)])
+  | "migrate" =>
+    let srcStr : CStr := match j.getObjVal? "src" with | .ok .null => .null | .error _ => .null | _ => .utf8 "path"
+    let dec := AsyncEntry.migrateIndySdk.decode (fun _ => .ok ()) [srcStr, cstr j "name", cstr j "key", cstr j "kdf"] .null
+    let cbGiven := bool! j "cb"
+    let (ret, _) := runEntry (ρ := Unit) .required cbGiven none dec (.completed (.ok ()))
+    if ret != .success then (w, Json.mkObj [("r", jcode ret), ("cb", .null), ("rows", .null)]) else
+    -- `connect`: the KDF level is parsed first, then the file is opened; `migrate`: refused when already migrated;
+    -- whether the wallet key opens THIS wallet is a fact of the fixture (the Rust API's verdict)
+    let kdf := ((cstr j "kdf").intoOptString).getD ""
+    let res : Except Err Unit :=
+      if !["RAW", "ARGON2I_MOD", "ARGON2I_INT"].contains kdf then .error .input
+      else match j.getObjVal? "src" with
+        | .ok (.str "missing") => .error .backend
+        | .ok (.obj _) => .error .backend          -- "Database is already migrated"
+        | _ => twVerdict { w with tw := w.tw.map fun t => (getD? t "v").getD .null } i
+    let rows := match res with | .ok _ => ((w.tw[i]?.bind fun t => getD? t "rows").getD .null) | .error _ => .null
+    (w, Json.mkObj [("r", jcode .success), ("cb", match res with | .ok _ => "ok" | .error e => jerrE e), ("rows", rows)])
+  | "busy" =>
+    -- the observed triple must be one the interleaving model produces
+    let t := (w.tw[i]?).getD .null
+    let (call, close, after) := (str! t "call", str! t "close", str! t "after")
+    let mode := str! j "mode"
+    let target := str! j "target"
+    -- the in-flight call's own result: the insert behind a write lock times out (Backend); a read succeeds —
+    -- unless the pool was closed under it (store close)
+    -- (store close: `remove_all` also drops the session that holds the lock, so the waiting insert may get through)
+    let own : List String := if target == "store" then ["Success", "Backend"] else if mode == "lock" then ["Backend"] else ["Success"]
+    let outcomes := closeRaceOutcomes (bool! j "commit") (.ok ())
+    let closeName (r : Except Err Unit) : String := match r with | .ok _ => "Success" | .error e => (Code.ofErr e).name
+    let allowed :=
+      if target == "session" then outcomes.any fun (isOwn, r) => closeName r == close && (if isOwn then own.contains call else call == "Input")
+      else close == "Success" && (own.contains call || call == "Input")     -- scan_free swallows Busy; store close drops the entries
+    let allowed := allowed && after == "Input"
+    (w, Json.mkObj [("busy", if allowed then Json.mkObj [("call", .str call), ("close", .str close), ("after", .str after)] else Json.mkObj [("not-allowed", t)])])
+  | "logger" =>
+    if bool! j "default_first" then
+      let (d, s1) := setDefaultLogger .none
+      let (c, s2) := setCustomLogger s1 5
+      let (d2, _) := setDefaultLogger s2
+      (w, Json.mkObj [("logger", Json.mkObj [("default", jcode d), ("custom_after", jcode c), ("default_again", jcode d2)])])
+    else
+      let level := int! j "level"
+      let (set, s1) := setCustomLogger .none level
+      let (again, s2) := setCustomLogger s1 5
+      let (dflt, _) := setDefaultLogger s2
+      -- the logger in force: the first installation when it succeeded, else the second (level 5, no callbacks)
+      let first := set == .success
+      let maxLevel : Nat := if first then (if level < 0 then 1 else level.toNat) else 5
+      let enabledCb : Option (Nat → Bool) := if first && bool! j "enabled" then some (fun l => decide (l ≤ nat! j "enabled_max")) else none
+      let flushCb := first && bool! j "flush"
+      let trace := recordDelivered maxLevel false enabledCb 5
+      let debug := recordDelivered maxLevel false enabledCb 4
+      (w, Json.mkObj [("logger", Json.mkObj [("set", jcode set), ("again", jcode again), ("default", jcode dflt), ("trace_seen", .bool trace),
+        ("own_seen", .bool (debug || trace)), ("enabled_called", .bool (enabledCb.isSome && decide (4 ≤ maxLevel))), ("enabled_after_clear", jnat 0),
+        ("flush_calls", jnat (if flushCb then 1 else 0)), ("after_clear", jnat (if recordDelivered maxLevel true enabledCb 5 then 1 else 0)),
+        ("ctx_ok", .bool true), ("leaks", jnat 0)])])
+  | _ => (w, jerr "BadOp")
 
 def evalOp (w : World) (i : Nat) (j : Json) : World × Json :=
   let op := str! j "op"
@@ -539,7 +860,7 @@ def evalOp (w : World) (i : Nat) (j : Json) : World × Json :=
     else
       -- `alg.as_opt_str().unwrap_or_default()`, then `KeyAlg::from_str`: unknown names are Unsupported
       let alg := ((cstr j "alg").asOptStr).getD ""
-      if ["ed25519", "x25519", "a128gcm", "a256gcm", "c20p", "xc20p", "p256", "k256"].contains alg
+      if knownAlgs.contains alg
       then (setSlot w i (.key alg), jsync .success .null)
       else (w, jsync .unsupported .null)
   | "key_get_algorithm" =>
@@ -590,7 +911,8 @@ def evalOp (w : World) (i : Nat) (j : Json) : World × Json :=
       match mc with
       | .error e => (w, .error e)
       | .ok m =>
-        match (w.prov.find? (·.1 == nat! j "of")).bind fun pb => w.backends[pb.2]? with
+        if lookupFile w (nat! j "of") == some none then (w, .error .notFound) else     -- the file was removed
+        match ((lookupFile w (nat! j "of")).bind id).bind fun bi => w.backends[bi]? with
         | none => (w, .error .backend)
         | some b =>
           if (match m with | some m => m != b.keyM | none => false) then (w, .error .input) else   -- "Store key method mismatch"
@@ -736,7 +1058,7 @@ def evalOp (w : World) (i : Nat) (j : Json) : World × Json :=
                     ("null_out", jcode (match checkOutAndHandle true false with | .error e => Code.ofErr e | .ok _ => .success))])
   | "raw_key_null_out" =>
     (w, Json.mkObj [("crash", .bool (generateRawKeyOut true == .segfault))])
-  | _ => (w, jerr "BadOp")
+  | _ => evalNew w i j
 
 def codeNum (n : String) : Nat :=
   match n with
@@ -758,7 +1080,7 @@ def trackLastErr (w : World) (op o : Json) : World :=
   let r := str! o "r"
   let cbe := match o.getObjVal? "cb" with | .ok cb => str! cb "err" | .error _ => ""
   if r == "Unexpected" || cbe == "Unexpected" then { w with lastErr := some 0 } else
-  if (name == "store_close" && !bool! op "cb") || name == "key_roundtrip" then { w with lastErr := none } else
+  if (name == "store_close" && !bool! op "cb") || name == "key_roundtrip" || isNewOp name then { w with lastErr := none } else
   let gotKeys := match o.getObjVal? "cb" with | .ok cb => (getD? cb "keys").isSome | .error _ => false
   if name == "null_probe" || ((name == "key_fetch" || name == "key_fetch_all") && gotKeys) then { w with lastErr := some 5 } else
   if cbe != "" then { w with lastErr := some (setLastError (codeOfName cbe) 0).2 } else
@@ -774,7 +1096,7 @@ def runCase (j : Json) : Json :=
   let (_, outs, _) := ops.foldl (fun (acc : World × Array Json × Nat) op =>
     let (w, outs, i) := acc
     let (w', o) := evalOp w i op
-    (trackLastErr w' op o, outs.push o, i + 1)) (({} : World), #[], 0)
+    (trackLastErr w' op o, outs.push o, i + 1)) (({ tw := (arr! j "tw").toArray, ops := ops.toArray } : World), #[], 0)
   .arr outs
 
 end Driver.C19
